@@ -419,3 +419,71 @@ Proof.
   - repeat constructor; discriminate.
   - repeat constructor.
 Qed.
+
+(** * every value readable from a (nested) params map is a once-decoded raw segment *)
+Definition all_values (Q : bytes -> bytes -> Prop) (m : pmap) : Prop :=
+  forall k vs v, In (k, vs) m -> In v vs -> Q k v.
+
+Lemma insert_decoded_all Q m k v :
+  all_values Q m -> Q k v -> all_values Q (insert_decoded m k v).
+Proof.
+  induction m as [|[k' vs'] m IH]; intros Hm Hq.
+  - intros k0 vs0 v0 [E|[]] Hv. inversion E; subst. destruct Hv as [<-|[]]. exact Hq.
+  - cbn [insert_decoded]. destruct (bytes_eqb k' k) eqn:E.
+    + apply bytes_eqb_eq in E; subst k'.
+      intros k0 vs0 v0 [E0|Hin] Hv.
+      * inversion E0; subst. apply in_app_or in Hv as [Hv|[<-|[]]]; [|exact Hq].
+        apply (Hm k0 vs'); [left; reflexivity|exact Hv].
+      * apply (Hm k0 vs0); [right; exact Hin|exact Hv].
+    + intros k0 vs0 v0 [E0|Hin] Hv.
+      * inversion E0; subst. apply (Hm k0 vs0); [left; reflexivity|exact Hv].
+      * assert (Hm' : all_values Q m) by (intros a b c Ha Hb; apply (Hm a b c); [right; exact Ha|exact Hb]).
+        apply (IH Hm' Hq k0 vs0 v0 Hin Hv).
+Qed.
+
+Lemma fold_insert_decoded_all Q kvs : forall acc,
+  all_values Q acc -> (forall k v, In (k, v) kvs -> Q k v) ->
+  all_values Q (fold_left (fun m kv => insert_decoded m (fst kv) (snd kv)) kvs acc).
+Proof.
+  induction kvs as [|[k v] kvs IH]; intros acc Ha Hq; [exact Ha|].
+  cbn [fold_left fst snd]. apply IH.
+  - apply insert_decoded_all; [exact Ha|apply Hq; left; reflexivity].
+  - intros k0 v0 Hin. apply Hq. right; exact Hin.
+Qed.
+
+Lemma fold_insert_all Q kvs : forall acc,
+  all_values Q acc -> (forall k r, In (k, r) kvs -> Q k (unescape r)) ->
+  all_values Q (fold_left (fun m kv => insert m (fst kv) (snd kv)) kvs acc).
+Proof.
+  induction kvs as [|[k v] kvs IH]; intros acc Ha Hq; [exact Ha|].
+  cbn [fold_left fst snd]. apply IH.
+  - unfold insert. apply insert_decoded_all; [exact Ha|apply Hq; left; reflexivity].
+  - intros k0 v0 Hin. apply Hq. right; exact Hin.
+Qed.
+
+Lemma in_pairs_of m k v : In (k, v) (pairs_of m) -> exists vs, In (k, vs) m /\ In v vs.
+Proof.
+  unfold pairs_of. intros H. apply in_flat_map in H as [[k' vs] [Hin Hv]].
+  cbn [fst snd] in Hv. apply in_map_iff in Hv as [v' [E Hv']]. inversion E; subst.
+  exists vs. split; assumption.
+Qed.
+
+Theorem route_values_decoded_once raw :
+  all_values (fun k v => exists r, In (k, r) raw /\ v = unescape r) (route_params raw).
+Proof.
+  unfold route_params, collect. apply fold_insert_all.
+  - intros k vs v [].
+  - intros k r Hin. exists r. split; [exact Hin|reflexivity].
+Qed.
+
+Theorem nested_values_decoded_once levels :
+  all_values (fun k v => exists raw r, In raw levels /\ In (k, r) raw /\ v = unescape r)
+             (params_including_parents levels).
+Proof.
+  unfold params_including_parents, collect_decoded. apply fold_insert_decoded_all.
+  - intros k vs v [].
+  - intros k v Hin. apply in_flat_map in Hin as [raw [Hraw Hin]].
+    apply in_pairs_of in Hin as [vs [Hvs Hv]].
+    destruct (route_values_decoded_once raw k vs v Hvs Hv) as [r [Hr E]].
+    exists raw, r. split; [exact Hraw|split; assumption].
+Qed.
